@@ -390,6 +390,20 @@ CHECKS = {
 
 NOT_YET = {}
 
+# additions of the sixth session (DESIGN 10.8), appended to the texts above
+LATER = {
+    "C02": " Generic Kombinationen / functions of one module instantiated with types their module cannot see (declared by the importer or by a sibling module imported before / after), six uses, modules linked and kept apart: accepted implies compiled.",
+    "C05": " Every call / return row of the aliasing matrix (incl. a function returning its own unchanged value parameter, recursion handing a value parameter to the function's own Referenz parameter) runs under the ledger at -O 2 in every tier: at that level parameters judged constant are only borrowed.",
+    "C07": " The range monitor also looks at the diagnostics wrapped inside delivered ones (failed generic instantiations); corpus families: an error behind letters of 2-4 bytes on the same line, two errors in one statement at top level and inside blocks (120 programs), errors at every place of a generic body.",
+    "C08": " Rows for recursion (a value parameter handed to the function's own Referenz parameter) and for returning an unchanged value parameter (argument local / global / temporary).",
+    "C10": " Module paths that differ only in `/` against `_` (pkg/ap/ad.ddp, pkg/ap_ad.ddp) and a module file next to a directory of the same stem occur in the generated graphs.",
+    "C12": " For-each loops over a Text whose body assigns the loop variable a letter of another encoded width (32 programs, judged by the L2 evaluator).",
+    "C14": " Behind instantiations of a generic Kombination: declarations (by literal and by default value) are judged separately from the statement under test.",
+    "C15": " Effect programs: one generic function over an overloaded callee that reads for one type and changes through a Referenz for another, both instantiation orders, caller local / global, generic text against hand-specialised text at -O 0/1/2.",
+    "C19": " List literals of both forms (`n Mal w`, `eine Liste, die aus … besteht`) for nine element values incl. all-zero ones and five lengths, after heap churn, at -O 0/1/2.",
+    "C20": " Aliases used by the body of a generic function instantiated elsewhere: helper generic / plain, private / public, declared before / after, pattern extending or prefixing an imported alias, import whole / by name.",
+}
+
 
 def main():
     checks = []
@@ -402,7 +416,7 @@ def main():
             "evidence_file": "evidence/%s.json" % pid,
             "replay_cmd_template": "./check replay {path}",
             "engine": "lean+corr",
-            "level_claimed": {"category": "proof", "text": c["text"], "design_ref": c["ref"]},
+            "level_claimed": {"category": "proof", "text": c["text"] + LATER.get(pid, ""), "design_ref": c["ref"]},
             "level_note": c["note"],
             "technique": c["technique"],
         })
